@@ -20,7 +20,7 @@ REQUIRED_THEOREMS = [
     'C14_data_follows_outputs', 'C14_map_order_irrelevant', 'C14_observable_types',
     'C14_posterior', 'C14_posterior_exists', 'C14_posterior_of_frame', 'C14_prefix_posterior_partial',
     'C14_unsorted_counterexample', 'C14_single_individual_counterexample', 'C14_selector_counterexample',
-    'C14_selector_zero']
+    'C14_selector_zero', 'C14_model_state_after', 'C14_history_independent', 'C14_stale_regimen_counterexample']
 RULE = ('long-format frames with 1-5 (sometimes 11) individuals (int / float / str / mixed-object ID columns, IDs '
         'that coincide as strings, IDs whose string order differs from their order of appearance, the ID 0 / 0.0 / "0" '
         'at any position), 1-3 outputs '
@@ -31,7 +31,9 @@ RULE = ('long-format frames with 1-5 (sometimes 11) individuals (int / float / s
         'without duration, covariate rows; layouts: individual blocks, random interleaving, globally time-sorted, '
         'fully shuffled (rows of an individual in any time order); with / without population model (pooled / '
         'heterogeneous / log-normal / Gaussian blocks, covariate-dependent blocks), fixed parameters, both set-up '
-        'orders, a discarded earlier set_data; every individual selected by its string key and by the value its '
+        'orders, a discarded earlier set_data, an earlier dataset with another dosing mode (with / without a posterior '
+        'built from it), the same error-model instance for several outputs, a second controller built from the '
+        'same model objects (caller objects compared before / after); every individual selected by its string key and by the value its '
         'ID has in the frame (Python and numpy scalars, boundary IDs first); doses of amount 0, parameters fixed at 0; toy mechanistic model with a closed-form dose response, PKPD library model on the '
         'reference integrator for a few cases. non-trivial = >=2 individuals and (interleaved / sorted / shuffled '
         'layout, or dose rows, or covariates, or missing cells); distinct = distinct (layout, id type, #ids, '
@@ -51,6 +53,9 @@ ASSUMPTIONS = [
 
 KINDS = c04.KINDS
 SIM_LOG = []          # (regimen events | None, times) of every DoseToy.simulate call
+# does get_log_posterior leave an individual's regimen on the controller's own mechanistic model (the code as
+# recorded in finding C14-stale-regimen) or not (repaired)?  decided at run start by `detect_shared_mutation`
+MUTATES = [True]
 
 
 # ----------------------------------------------------------------------------------------------
@@ -160,6 +165,16 @@ def merge_keep_order(rng, lists):
         if not lists[k]:
             lists.pop(k)
     return out
+
+
+def gen_history(rng, dosing, order):
+    """an earlier dataset on the same controller: another dosing mode the mechanistic model allows, optionally a
+    posterior built from it (drawn for every case so that the random stream does not depend on it)"""
+    modes = ['unsupported'] if dosing == 'unsupported' else ['full', 'full', 'nodur', 'nokey', 'nocolumn']
+    h = {'dosing': modes[int(rng.integers(len(modes)))], 'posterior': bool(rng.random() < 0.6),
+         'rows': 'all' if rng.random() < 0.7 else 'half'}
+    use = rng.random() < 0.3
+    return h if (use and order == 'A') else None
 
 
 def gen_case(rng, layout=None, force=None):
@@ -312,7 +327,9 @@ def gen_case(rng, layout=None, force=None):
         'order': order, 'eval_seed': int(rng.integers(1 << 30)), 'model': 'toy',
         'map_seed': int(rng.integers(1 << 30)), 'numeric_obs': bool(numeric_obs),
         'frame_mode': [None, None, None, None, 'numeric_as_string', 'column_dtypes'][int(rng.integers(6))],
-        'pre_set': bool(rng.random() < 0.15)}
+        'pre_set': bool(rng.random() < 0.15),
+        'em_alias': bool(rng.random() < 0.3), 'second_controller': bool(rng.random() < 0.3),
+        'history': gen_history(rng, dosing, order)}
 
 
 # ----------------------------------------------------------------------------------------------
@@ -435,8 +452,47 @@ def make_model(case):
                    dosing=case['dosing'] not in ('unsupported',))
 
 
-def make_ems(chi, case):
-    return [c04.classes(chi)[k][0]() for k in case['kinds']]
+def make_ems(chi, case, alias=False):
+    """one error model per output; `alias`: outputs with the same kind of error model are given the SAME
+    instance (`[error_model] * 2`), which the controller must treat like separate models"""
+    if not alias:
+        return [c04.classes(chi)[k][0]() for k in case['kinds']]
+    inst = {}
+    return [inst.setdefault(k, c04.classes(chi)[k][0]()) for k in case['kinds']]
+
+
+def snapshot_args(model, ems):
+    """what the caller can see of the objects it handed to the controller"""
+    return {'error_model_names': [list(e.get_parameter_names()) for e in ems],
+            'error_model_n': [int(e.n_parameters()) for e in ems],
+            'outputs': list(model.outputs()), 'parameters': list(model.parameters()),
+            'regimen': model.events() if hasattr(model, 'events') else None,
+            'sensitivities': bool(model.has_sensitivities())}
+
+
+def meddle(chi, model, ems, case):
+    """a second controller built from the same caller objects, configured differently and used: nothing of
+    it may reach the first controller"""
+    try:
+        c2 = chi.ProblemModellingController(model, [ems[-1]], outputs=[case['outputs'][-1]])
+        names = c2.get_parameter_names()
+        c2.fix_parameters({names[-1]: 0.5})
+        c2.get_parameter_names()
+    except Exception:  # noqa
+        pass
+
+
+def pre_case(case):
+    """the dataset of the history step: the same individuals with another dosing mode (and possibly only part
+    of the rows)"""
+    h = case['history']
+    pre = copy.deepcopy(case)
+    pre['history'] = None
+    pre['pre_set'] = False
+    pre['dosing'] = h['dosing']
+    if h['rows'] == 'half':
+        pre['rows'] = pre['rows'][::-1][:max(1, len(pre['rows']) // 2)]
+    return pre
 
 
 def make_pop(chi, blocks):
@@ -486,7 +542,12 @@ def build_controller(chi, case, frame=None):
     model = make_model(case)
     if case['user_regimen'] is not None:
         model.set_dosing_regimen(protocol_of(case['user_regimen']))
-    c = chi.ProblemModellingController(model, make_ems(chi, case), outputs=case['outputs_arg'])
+    ems = make_ems(chi, case, alias=bool(case.get('em_alias')))
+    before = snapshot_args(model, ems)
+    c = chi.ProblemModellingController(model, ems, outputs=case['outputs_arg'])
+    c.verif_args = (model, ems, before)
+    if case.get('second_controller'):
+        meddle(chi, model, ems, case)
     frame = make_frame(case) if frame is None else frame
     try:
         if case['fixed_bottom'] is not None:
@@ -496,6 +557,16 @@ def build_controller(chi, case, frame=None):
             c.set_population_model(make_pop(chi, case['pop']))
     except Exception as e:  # noqa
         return None, ('setup', e)
+    if case.get('history'):
+        # an earlier dataset (other dosing mode), possibly with a posterior built from it, must leave nothing behind
+        pre = pre_case(case)
+        try:
+            c.set_data(make_frame(pre), **set_data_kwargs(pre))
+            if case['history']['posterior']:
+                c.set_log_prior(make_prior(c.get_n_parameters(), 1))
+                c.get_log_posterior()
+        except Exception:  # noqa
+            pass
     if case.get('pre_set'):
         # an earlier set_data with other (possibly unusable) data must leave nothing behind
         try:
@@ -515,6 +586,8 @@ def build_controller(chi, case, frame=None):
         c.set_log_prior(make_prior(c.get_n_parameters(), case['eval_seed']))
     except Exception as e:  # noqa
         return None, ('setup', e)
+    if case.get('second_controller'):
+        meddle(chi, model, ems, case)
     return c, None
 
 
@@ -551,15 +624,18 @@ def time_ordered(spec):
     return all(all(a[0] <= b[0] for a, b in zip(p[:-1], p[1:])) for s in spec for p in s['pairs'])
 
 
-def hand_likelihood(chi, case, s):
-    """chi.LogLikelihood of one individual, built directly from its rows and its own protocol"""
+def hand_likelihood(chi, case, s, carried='user'):
+    """chi.LogLikelihood of one individual, built directly from its rows and its own protocol; without dose
+    information the protocol of the user's model (`carried` replaces it only to keep the other comparisons
+    meaningful while finding C14-stale-regimen is open)"""
     model = make_model(case)
     if case['outputs_arg'] is not None:
         model.set_outputs(case['outputs_arg'])
+    own = case['user_regimen'] if carried == 'user' else carried
     if has_dose(case):
         model.set_dosing_regimen(protocol_of(s['doses']))
-    elif case['user_regimen'] is not None:
-        model.set_dosing_regimen(protocol_of(case['user_regimen']))
+    elif own is not None:
+        model.set_dosing_regimen(protocol_of(own))
     pairs = [sorted(p, key=lambda q: q[0]) for p in s['pairs']]
     ll = chi.LogLikelihood(model, make_ems(chi, case), [[q[1] for q in p] for p in pairs],
                            [[q[0] for q in p] for p in pairs])
@@ -570,12 +646,12 @@ def hand_likelihood(chi, case, s):
     return ll
 
 
-def hand_posterior(chi, case, spec, which=None):
+def hand_posterior(chi, case, spec, which=None, carried='user'):
     """`which` = index of the individual (no population model) or None (hierarchical)"""
     if case['pop'] is None:
-        ll = hand_likelihood(chi, case, spec[which])
+        ll = hand_likelihood(chi, case, spec[which], carried)
         return chi.LogPosterior(ll, make_prior(ll.n_parameters(), case['eval_seed'])), ll
-    lls = [hand_likelihood(chi, case, s) for s in spec]
+    lls = [hand_likelihood(chi, case, s, carried) for s in spec]
     pop = make_pop(chi, case['pop'])
     pop.set_dim_names(lls[0].get_parameter_names())
     pop.set_n_ids(len(lls))
@@ -638,6 +714,18 @@ def run_case(ctx, chi, case, label='gen'):
     cfg = wire_config(case)
     rows = wire_rows(case)
     shared = case['user_regimen']
+    h = case.get('history')
+    if h and h['posterior']:
+        pre = pre_case(case)
+        mo_pre = ctx.model('C14.run', wire_config(pre), wire_rows(pre), None, shared, MUTATES[0])
+        if mo_pre[0] == 'ok':
+            shared = mo_pre[4]
+        # the property: the posterior of the current dataset does not depend on what was done before
+        if not has_dose(case):
+            ctx.spec('C14.stale_regimen_after_set_data', core.close(shared, case['user_regimen']) if
+                     (shared is not None and case['user_regimen'] is not None) else shared == case['user_regimen'],
+                     inp, {'protocol_left_on_the_model_by_the_earlier_posterior': shared,
+                           'protocol_of_the_users_model': case['user_regimen']})
 
     c, err = build_controller(chi, case)
     if err is not None and err[0] == 'setup':
@@ -647,7 +735,7 @@ def run_case(ctx, chi, case, label='gen'):
     if err is not None:
         kind = core.errkind(err[1])
         ctx.errkinds.add(kind)
-        mo = ctx.model('C14.run', cfg, rows, None, shared)
+        mo = ctx.model('C14.run', cfg, rows, None, shared, MUTATES[0])
         ctx.agree('C14.set_data', [kind, 'set_data'], mo[:2], inp)
         ctx.spec('C14.set_data_accepts_valid_frame', not valid, inp, {'raised': repr(err[1])[:200]})
         return
@@ -658,7 +746,7 @@ def run_case(ctx, chi, case, label='gen'):
     selectors = [None] if case['pop'] is not None else [None] + [s['id'] for s in spec]
     for sel in selectors:
         which = None if case['pop'] is not None else (0 if sel is None else [s['id'] for s in spec].index(sel))
-        mo = ctx.model('C14.run', cfg, rows, sel, shared)
+        mo = ctx.model('C14.run', cfg, rows, sel, shared, MUTATES[0])
         if mo[0] == 'ok':
             shared_after = mo[4]
         try:
@@ -688,11 +776,21 @@ def run_case(ctx, chi, case, label='gen'):
         ctx.agree('C14.ids', [str(k) for k, _ in (chi_regs or [])] if chi_regs is not None else None,
                   [k for k, _ in mo[2]] if mo[2] is not None else None, inp)
         ctx.agree('C14.regimens', chi_regs, mo[2], inp)
-        check_posterior(ctx, chi, case, c, post, mo, spec, which, sel)
+        check_posterior(ctx, chi, case, c, post, mo, spec, which, sel, carried=shared)
         shared = shared_after
     if case['pop'] is None:
         check_selectors(ctx, chi, case, c, spec)
     check_predictive(ctx, chi, case, c)
+    check_arguments(ctx, case, c)
+
+
+def check_arguments(ctx, case, c):
+    """the models handed to the controller are the caller's: whatever the controller (or a second controller
+    built from the same objects) does, they look the same afterwards"""
+    model, ems, before = c.verif_args
+    after = snapshot_args(model, ems)
+    ctx.spec('C14.arguments_untouched', after == before, summary(case) | {'case': case},
+             {'before': before, 'after': after})
 
 
 def indiv_struct(ind):
@@ -701,7 +799,7 @@ def indiv_struct(ind):
     return ind[0], [len(o[0]) for o in ind[1]], grid, ind[2]
 
 
-def check_posterior(ctx, chi, case, c, post, mo, spec, which, sel):
+def check_posterior(ctx, chi, case, c, post, mo, spec, which, sel, carried='user'):
     inp = case
     kind, *rest = mo[3]
     xs = eval_points(post, case['eval_seed'])
@@ -727,7 +825,7 @@ def check_posterior(ctx, chi, case, c, post, mo, spec, which, sel):
     # ---------------- the property: equal to the posterior assembled by hand from the frame
     sp = spec if which is None else [spec[which]]
     try:
-        hand, hl = hand_posterior(chi, case, spec, which)
+        hand, hl = hand_posterior(chi, case, spec, which, carried)
     except Exception as e:  # noqa
         ctx.notes.append('hand assembly failed: %r' % (e,)) if len(ctx.notes) < 5 else None
         return
@@ -972,6 +1070,11 @@ def transform(rng, case, kind):
 
 
 def check_invariance(ctx, chi, case, rng):
+    if MUTATES[0] and case.get('history') and case['history']['posterior'] and not has_dose(case):
+        # finding C14-stale-regimen: the result would depend on which individual the earlier posterior was built
+        # for; the invariances are judged without that history step while the finding is open
+        case = copy.deepcopy(case)
+        case['history']['posterior'] = False
     base, err = posterior_values(chi, case)
     if base is None:
         return
@@ -1064,6 +1167,26 @@ def corpus(ctx, chi):
     ]
     for b in bad:
         run_case(ctx, chi, b, 'malformed')
+
+
+def detect_shared_mutation(ctx, chi):
+    """finding C14-stale-regimen: does a posterior built from a dosed dataset leave its regimen on the controller's
+    mechanistic model?  (the Lean model carries both variants: getLogPosterior / getLogPosteriorPure)"""
+    rows = [R(1, 1.0, 'conc', 1.0), R(1, 0.0, None, None, 2.0, 0.5), R(2, 1.0, 'conc', 1.5), R(2, 0.0, None, None, 4.0, None)]
+    case = base_case(rows=rows)
+    c, err = build_controller(chi, case)
+    try:
+        c.get_log_posterior('2')
+        case2 = base_case(rows=rows, dosing='nokey')
+        c.set_data(make_frame(case2), **set_data_kwargs(case2))
+        c.set_log_prior(make_prior(c.get_n_parameters(), 1))
+        post = c.get_log_posterior('1')
+        del SIM_LOG[:]
+        post(np.array([1.0, 1.1, 0.9]))
+        MUTATES[0] = SIM_LOG[-1][0] is not None
+    except Exception:  # noqa
+        MUTATES[0] = True
+    ctx.extra['variant_of_chi'] = {'regimen_left_on_the_controllers_model(C14-stale-regimen)': MUTATES[0]}
 
 
 def observable_dtype(ctx, chi):
@@ -1221,6 +1344,7 @@ def pkpd_cases(ctx, chi, n):
 # ----------------------------------------------------------------------------------------------
 def run(ctx):
     chi = core.import_chi()
+    detect_shared_mutation(ctx, chi)
     ctx.guard(corpus, ctx, chi)
     ctx.guard(observable_dtype, ctx, chi)
     n = 320 if ctx.tier == 'quick' else 5800
@@ -1236,6 +1360,7 @@ def run(ctx):
 
 def replay(ctx, data):
     chi = core.import_chi()
+    detect_shared_mutation(ctx, chi)
     inp = data['failing']['input']
     case = inp['case'] if 'case' in inp and 'rows' not in inp else inp
     if 'rows' not in case:
